@@ -65,7 +65,7 @@ def replay(ctx, res, name, engine="pango", prefix="C12:", validate_all=True):
     tf = os.path.join(ctx.scratch, "tracein_%s.ndjson" % name)
     with open(tf, "w") as f:
         f.writelines(recs)
-    tres = ctx.tlc("PaginationTrace", "PaginationTrace.cfg", workers=16, env={"TRACE_FILE": tf}, timeout=3000, heap_gb=12)
+    tres = ctx.tlc_trace("PaginationTrace", "PaginationTrace.cfg", tf, workers=16, timeout=3000, heap_gb=12)
     if tres.distinct != len(recs):
         raise MachineryError("TLC validated %d of %d page sequences" % (tres.distinct, len(recs)))
     for b in ctx.tuples(tres, "BAD"):
